@@ -28,9 +28,14 @@ func C06(c *mc.Ctx) {
 	}
 	c06TwoSourceGroups(c)
 	c06Groups(c) // the small exploration first: the large one may use up the run's time budget
+	// this node as destination hub of a transaction that starts on a remote BitXHub (the timeout
+	// runs here, the source is told through the union pier), next to a local pair; and as source
+	// hub, where no timeout runs
+	runIC(c, "C06", c06Oracle, fix.Options{}, "icmc-inter-hub",
+		[]string{"empty", "req:pr:n:1", "req:pr:n:2", "rc:pr:n:s", "rc:pr:n:f", "req:ph:n:2", "rc:ph:n:s", "req:p1:n:2", "req:pr:n:2+req:p1:n:2", "rc:pr:n:s+rc:pr:n:s"}, depth-1)
 	runIC(c, "C06", c06Oracle, fix.Options{}, "icmc", alphabet, depth)
 	fix.Cleanup()
-	c.Set("rule", "BFS over block histories of requests with timeout T in {0,1,2,3,huge,-1} (several sharing an expiry height, begin-failed ones), receipts before / in / after the expiry block, empty blocks and reopen between H and H+T; after every block the block's timeout notifications and every transaction status are compared with the reference model (expiry E=H+T, listed once for the source chain iff still BEGIN at the end of block E)")
+	c.Set("rule", "BFS over block histories of requests with timeout T in {0,1,2,3,huge,-1} (several sharing an expiry height, begin-failed ones), receipts before / in / after the expiry block, empty blocks and reopen between H and H+T; after every block the block's timeout notifications and every transaction status are compared with the reference model (expiry E=H+T, listed once for the source chain iff still BEGIN at the end of block E); a further BFS on a world with a remote BitXHub: requests from the remote hub to a local service (timeout runs here, announced through the union pier) and from a local service to the remote hub (no timeout on the source hub)")
 	c.Assume("all proofs valid (HappyRule)")
 	if c.Get("timeouts_expected") == 0 {
 		c.HarnessError("vacuous: no timeout expected by the model")
